@@ -537,6 +537,14 @@ func (f *followingQuery) Select(t iterator) NodeNavigator {
 				}
 			} else {
 				var q *descendantQuery // descendant query
+				if node.NodeType() == AttributeNode {
+					// The content of the owner element follows its attributes.
+					node.MoveToParent()
+					q = &descendantQuery{
+						Input:     &contextQuery{},
+						Predicate: f.Predicate,
+					}
+				}
 				f.iterator = func() NodeNavigator {
 					for {
 						if q == nil {
